@@ -15,3 +15,27 @@ def translate (t : Table) (s : List Char) : List Char := s.flatMap (tr t)
 def quoted (q : Char) (t : Table) (s : List Char) : List Char := q :: translate t s ++ [q]
 
 end Dcg.Model.Escape
+
+namespace Dcg.Model.Escape
+
+/-- `model/base.py escape_docstring`: `text.replace("\\", "\\\\").replace('"""', '""\\"').replace("\0", "\\x00")`
+as a single left-to-right pass; `run` = number of plain double quotes just written (0, 1, 2).
+(Agreement with the real function is tested by the `esc.doc` correspondence campaign; the three
+replacement pairs themselves are regenerated into `Gen/EscTables.docstringReplaces`.) -/
+def escDoc : Nat → List Char → List Char
+  | _, [] => []
+  | run, c :: r =>
+    if c = '\\' then '\\' :: '\\' :: escDoc 0 r
+    else if c = Char.ofNat 0 then '\\' :: 'x' :: '0' :: '0' :: escDoc 0 r
+    else if c = '"' then
+      (if run = 2 then '\\' :: '"' :: escDoc 0 r else '"' :: escDoc (run + 1) r)
+    else c :: escDoc 0 r
+
+/-- what the lexer does to raw newlines inside a triple-quoted literal: `\r\n`, `\r` ↦ `\n` -/
+def normNL : List Char → List Char
+  | [] => []
+  | '\r' :: '\n' :: r => '\n' :: normNL r
+  | '\r' :: r => '\n' :: normNL r
+  | c :: r => c :: normNL r
+
+end Dcg.Model.Escape
